@@ -518,6 +518,45 @@ Definition run_c10_script (args : list sx) : sx :=
     ret (L [L tr; sx_final s ids])
   | _ => None end).
 
+(* ---------- whenDone of localProcess (process.go): who is told that the process has ended ----------
+   localProcess.whenDone(action) parks a goroutine on the `done` channel, runInProcess's goroutine closes
+   `done` when the client function has returned.  State: has the process exited, the callbacks registered
+   and not yet run, the callbacks run.  A registration AFTER the exit runs its callback at once (the parked
+   goroutine finds `done` closed), a registration before it runs the callback at the exit.  runClient
+   registers its callback (terminated.Store(true)) after start() has returned, so both orders occur. *)
+Inductive wd_action := WdRegister (k : N) | WdExit.
+
+Record wd_st := mkWd {
+  wd_exited : bool;
+  wd_waiting : list N;          (* registered, parked *)
+  wd_fired : list N             (* callbacks that have run *)
+}.
+
+Definition wd_init : wd_st := mkWd false [] [].
+
+Definition wd_step (s : wd_st) (a : wd_action) : wd_st :=
+  match a with
+  | WdRegister k =>
+    if s.(wd_exited) then mkWd true s.(wd_waiting) (s.(wd_fired) ++ [k])
+    else mkWd false (s.(wd_waiting) ++ [k]) s.(wd_fired)
+  | WdExit =>
+    if s.(wd_exited) then s else mkWd true [] (s.(wd_fired) ++ s.(wd_waiting))
+  end.
+
+Definition wd_run (acts : list wd_action) : wd_st := fold_left wd_step acts wd_init.
+
+Definition wd_count (k : N) (l : list N) : nat := length (filter (N.eqb k) l).
+Definition wd_is_reg (k : N) (a : wd_action) : bool :=
+  match a with WdRegister j => N.eqb k j | WdExit => false end.
+Definition wd_regs (k : N) (acts : list wd_action) : nat := length (filter (wd_is_reg k) acts).
+Definition wd_is_exit (a : wd_action) : bool := match a with WdExit => true | _ => false end.
+
+(* runClient's callback is registration 0; `early` = the client function had returned before runClient
+   reached proc.whenDone.  The notice is part of a schedule iff the whenDone model runs callback 0. *)
+Definition runner_notice (early : bool) : list action :=
+  let acts := if early then [WdExit; WdRegister 0] else [WdRegister 0; WdExit] in
+  if Nat.eqb (wd_count 0 (wd_fired (wd_run acts))) 1 then [ExitNotice] else [].
+
 (* ---------- c10.proc: a free-running in-process client (runInProcess, no instrumentation) ----------
    One sender hands requests 0 .. n-1 (distinct names) to the runner one after the other.  The client
    function reads the first r of them, answers those listed in `answers` (in that order, each with the
@@ -534,25 +573,67 @@ Definition proc_script (names : list name) (r : N) (answers : list N) (failed : 
   [ProcExit failed false] ++
   (if r <? n then [WriteFail r WClosed] else []) ++
   flat_map (fun i => [SendCheck i (nm i) QOk; SendLock i]) (filter (fun i => r <? i) ids) ++
-  [RStep; RClose; RDrain; ExitNotice; CloseSend; Wait].
+  [RStep; RClose; RDrain] ++ runner_notice false ++ [CloseSend; Wait].
+
+(* the client function returns at once (nil / an error, no output), start() hands the process to runClient
+   only after that; the reader meets the end of the output and cleans up; then n sends, closeSend,
+   waitForResponses *)
+Definition proc_script_early (names : list name) (failed : bool) : list action :=
+  let nm := fun i : N => nth (N.to_nat i) names [] in
+  let ids := map N.of_nat (seq 0 (length names)) in
+  [ProcExit failed false] ++ runner_notice true ++ [RStep; RClose; RDrain] ++
+  flat_map (fun i => [SendCheck i (nm i) QOk; SendLock i]) ids ++
+  [CloseSend; Wait].
 
 Fixpoint distinct_bytes (l : list bytes) : bool :=
   match l with [] => true | x :: r => negb (mem_bytes x r) && distinct_bytes r end.
 Fixpoint distinct_N (l : list N) : bool :=
   match l with [] => true | x :: r => negb (existsb (N.eqb x) r) && distinct_N r end.
 
-(* (names) r (answers) failed peek -> (isRunning at the end, (per id: return, callbacks) done wait) *)
-Definition run_c10_proc (args : list sx) : sx :=
-  or_bad (match args with
-  | [names; r; answers; failed; _peek] =>
+(* (names) r (answers) failed peek [early] -> (isRunning at the end, (per id: return, callbacks) done wait)
+   early = 1: the client function returns before runClient registers its whenDone callback (r = 0, no answers) *)
+Definition run_c10_proc_with (names r answers failed : sx) (early : bool) : option sx :=
     do names <- un_listof un_B names; do r <- un_N r; do answers <- un_listof un_N answers; do failed <- un_bool failed;
     if distinct_bytes names && distinct_N answers && forallb (fun j => j <? r) answers
        && (r <=? N.of_nat (length names)) && forallb (fun n => (0 <? N.of_nat (length n)) && (N.of_nat (length n) <? 100)) names
+       && (negb early || (r =? 0))
     then
-      let s := run (proc_script names r answers failed) in
+      let s := run (if early then proc_script_early names failed else proc_script names r answers failed) in
       ret (L [sx_bool (is_running s); sx_final s (map N.of_nat (seq 0 (length names)))])
+    else None.
+
+Definition run_c10_proc (args : list sx) : sx :=
+  or_bad (match args with
+  | [names; r; answers; failed; _peek] => run_c10_proc_with names r answers failed false
+  | [names; r; answers; failed; _peek; early] =>
+    do early <- un_bool early; run_c10_proc_with names r answers failed early
+  | _ => None end).
+
+(* c10.whendone: a script of registrations and the exit on a real localProcess.
+   ((0 k) | (1))... -> per registered k (ascending, each once): how often its callback ran *)
+Definition un_wd_action (x : sx) : option wd_action :=
+  match x with
+  | L [I 0%Z; k] => do k <- un_N k; ret (WdRegister k)
+  | L [I 1%Z] => Some WdExit
+  | _ => None end.
+
+Fixpoint wd_keys (acts : list wd_action) (acc : list N) : list N :=
+  match acts with
+  | [] => acc
+  | WdRegister k :: r => wd_keys r (if existsb (N.eqb k) acc then acc else acc ++ [k])
+  | WdExit :: r => wd_keys r acc
+  end.
+
+Definition run_c10_whendone (args : list sx) : sx :=
+  or_bad (match args with
+  | [acts] =>
+    do acts <- un_listof un_wd_action acts;
+    if forallb (fun k => k <? 64) (wd_keys acts []) && (Nat.leb (length acts) 64) then
+      let s := wd_run acts in
+      ret (L [sx_bool s.(wd_exited);
+              L (map (fun k => L [I (Z.of_N k); I (Z.of_nat (wd_count k s.(wd_fired)))]) (wd_keys acts []))])
     else None
   | _ => None end).
 
 Definition c10_table : list (bytes * (list sx -> sx)) :=
-  [ (bs "c10.script", run_c10_script); (bs "c10.proc", run_c10_proc) ].
+  [ (bs "c10.script", run_c10_script); (bs "c10.proc", run_c10_proc); (bs "c10.whendone", run_c10_whendone) ].
